@@ -30,6 +30,8 @@ class InterruptableThread(threading.Thread):
         # Threads started under a time limit of their own while this one
         # was running (e.g., a student file importing another one)
         self.children = []
+        # Set as soon as somebody starts to end this thread
+        self.terminated = False
 
     def run(self):
         """
@@ -79,7 +81,8 @@ class InterruptableThread(threading.Thread):
 
         """
         # Whatever this thread is waiting for has to end with it, now and
-        # not when its own wait is over
+        # not when its own wait is over (and it starts nothing new meanwhile)
+        self.terminated = True
         for child in list(self.children):
             child.terminate()
         if not any(thread is self for thread in list(threading._active.values())):
@@ -107,6 +110,10 @@ def timeout(duration, func, *args, **kwargs):
     parent_thread = threading.current_thread()
     if isinstance(parent_thread, InterruptableThread):
         parent_thread.children.append(target_thread)
+        if parent_thread.terminated:
+            # We are being ended ourselves, and whoever does that may already
+            # have gone through our children: nothing new is started
+            raise SystemExit()
     target_thread.start()
     given_up = False
     try:
